@@ -365,7 +365,7 @@ func (s *lifeSrv) sessionElem(conn lifeLink, n int, e *srv.Elem) {
 	}
 	if e.Kind == "ws" {
 		s.mu.Lock()
-		s.pings[n]++
+		s.pings[n] += len(e.Raw) // several keepalive bytes can arrive in one read on a loaded machine
 		s.mu.Unlock()
 	}
 }
